@@ -227,7 +227,11 @@ var _ = (*SegmentUInt64Map[any]).Clear
 //@ func (*SegmentUInt64Map[any]).Clear
 //@   abstract
 //@   nosafety all pre
-//@   loop 1 invariant calls("(*sync/atomic.Int64).Store") == 0 && calls("(*sync.RWMutex).Lock") == calls("(*sync.RWMutex).Unlock")
+//@   loop 1 invariant calls("(*sync/atomic.Int64).Store") == 0 && calls("(*sync.RWMutex).Lock") == calls("(*sync.RWMutex).Unlock") && calls("(*internal/cache.UInt64Map[any]).Len") == calls("(*internal/cache.UInt64Map[any]).Clear")
 //@   assert at call (*internal/cache.UInt64Map[any]).Clear#1: calls("(*sync.RWMutex).Lock") == calls("(*sync.RWMutex).Unlock") + 1
 //@   assert at call (*sync/atomic.Int64).Add#1: arg1 == -int64(lastret("(*internal/cache.UInt64Map[any]).Len"))
+//@   # what is subtracted is what the segment held WHEN IT WAS EMPTIED: the one reading of its size is taken under the
+//@   # same exclusive hold of the segment's lock as the emptying (a size peeked earlier can be stale by then)
+//@   assert at call (*internal/cache.UInt64Map[any]).Len#1: calls("(*sync.RWMutex).Lock") == calls("(*sync.RWMutex).Unlock") + 1 && calls("(*internal/cache.UInt64Map[any]).Len") == calls("(*internal/cache.UInt64Map[any]).Clear")
+//@   assert at call (*internal/cache.UInt64Map[any]).Clear#1: calls("(*internal/cache.UInt64Map[any]).Len") == calls("(*internal/cache.UInt64Map[any]).Clear") + 1
 //@   assert at return: calls("(*sync/atomic.Int64).Store") == 0
